@@ -7,7 +7,7 @@ Import ListNotations.
 From Traph Require Import Bytes Consts Layout Helpers Rules Tst TstDefs Traph Spec Ops RefDefs Traphw TraceDefs Codec CodecFacts
   TstFacts Store StoreFacts StoreFacts2 RefFull GenStorage GenNode GenNodeFacts GenTrie GenTrieFacts GenTrieW GenTrieWDefs
   GenTraphW GenTraphWDefs GenTraphP GenTraphPDefs.
-From Traph Require Import ReopenFacts GenTraphWFacts1 GenTraphWFacts GenTraphPFacts1 GenTraphPFacts.
+From Traph Require Import ReopenFacts GenTraphWFacts1 GenTraphWFacts GenTraphPFacts1 GenTraphPFacts GenTraphPReach.
 From Traph Require PropsEx IdFacts.
 Open Scope N_scope.
 
@@ -106,6 +106,12 @@ Proof. vm_compute. repeat split; reflexivity. Qed.
 Lemma exh3_wf : Forall wf_op exh3.
 Proof. apply Forall_app. split; [exact PropsEx.exh_wf|]. repeat constructor. cbn [wf_op]. PropsEx.wf_lru_tac. Qed.
 
+(* instantiating a theorem about `run d rs h` on a named state without letting the unifier evaluate the history *)
+Lemma exs_run : run Domain [] PropsEx.exh = PropsEx.exs.
+Proof. unfold PropsEx.exs. reflexivity. Qed.
+Lemma exs3_run : run Domain [] exh3 = exs3.
+Proof. unfold exs3. reflexivity. Qed.
+
 Example ex_theorem_applies_default :
   exists hd' sg', py_traph_add_page (rm_of PropsEx.exs) (hd_of PropsEx.exs) (sg_of PropsEx.exs) l1 false =
     Some (hd', sg', mk_rp [(4, [org_z; org_z_s; org_z ++ www; org_z_s ++ www])] 1) /\
@@ -114,10 +120,14 @@ Proof.
   assert (Hwk : walk_known (rules PropsEx.exs) l1 (snd (fst (trie_add_page l1 false PropsEx.exs)))).
   { assert (E : h_rules (snd (fst (trie_add_page l1 false PropsEx.exs))) = []) by (vm_compute; reflexivity).
     intros pos Hp. rewrite E in Hp. destruct Hp. }
-  destruct (py_traph_add_page_spec Domain [] PropsEx.exh PropsEx.ex_rules_wf PropsEx.exh_wf
-              (rm_of PropsEx.exs) (hd_of PropsEx.exs) (sg_of PropsEx.exs) l1 false (ramrep_of _)
-              (hrep_of PropsEx.exs ltac:(vm_compute; reflexivity)) ltac:(PropsEx.wf_lru_tac) Hwk
-              ltac:(vm_compute; reflexivity) ltac:(vm_compute; reflexivity)) as (hd' & sg' & E & Hh' & _).
+  assert (Hh : hrep PropsEx.exs (hd_of PropsEx.exs) (sg_of PropsEx.exs)) by (apply hrep_of; vm_compute; reflexivity).
+  assert (Hl : wf_lru l1) by PropsEx.wf_lru_tac.
+  assert (Hs : nb (fst (fst (add_page_int l1 false PropsEx.exs))) * 128 < 2 ^ 64) by (vm_compute; reflexivity).
+  assert (Hw : lastwe PropsEx.exs + 1 < 2 ^ 32) by (vm_compute; reflexivity).
+  pose proof (py_traph_add_page_spec Domain [] PropsEx.exh PropsEx.ex_rules_wf PropsEx.exh_wf) as HA.
+  cbv zeta in HA. rewrite exs_run in HA.
+  destruct (HA (rm_of PropsEx.exs) (hd_of PropsEx.exs) (sg_of PropsEx.exs) l1 false (ramrep_of _) Hh Hl Hwk Hs Hw)
+    as (hd' & sg' & E & Hh' & _).
   exists hd', sg'. split; [|exact Hh'].
   assert (Er : report_of (snd (fst (add_page_int l1 false PropsEx.exs))) (snd (add_page_int l1 false PropsEx.exs)) =
                mk_rp [(4, [org_z; org_z_s; org_z ++ www; org_z_s ++ www])] 1) by (vm_compute; reflexivity).
@@ -132,20 +142,65 @@ Proof.
   assert (Hwk : walk_known (rules exs3) l3 (snd (fst (trie_add_page l3 false exs3)))).
   { assert (E : h_rules (snd (fst (trie_add_page l3 false exs3))) = [17]) by (vm_compute; reflexivity).
     intros pos Hp. rewrite E in Hp. destruct Hp as [<-|[]]. vm_compute. discriminate. }
-  destruct (py_traph_add_page_spec Domain [] exh3 PropsEx.ex_rules_wf exh3_wf
-              (rm_of exs3) (hd_of exs3) (sg_of exs3) l3 false (ramrep_of _)
-              (hrep_of exs3 ltac:(vm_compute; reflexivity)) ltac:(PropsEx.wf_lru_tac) Hwk
-              ltac:(vm_compute; reflexivity) ltac:(vm_compute; reflexivity)) as (hd' & sg' & E & Hh' & _).
+  assert (Hh : hrep exs3 (hd_of exs3) (sg_of exs3)) by (apply hrep_of; vm_compute; reflexivity).
+  assert (Hl : wf_lru l3) by PropsEx.wf_lru_tac.
+  assert (Hs : nb (fst (fst (add_page_int l3 false exs3))) * 128 < 2 ^ 64) by (vm_compute; reflexivity).
+  assert (Hw : lastwe exs3 + 1 < 2 ^ 32) by (vm_compute; reflexivity).
+  pose proof (py_traph_add_page_spec Domain [] exh3 PropsEx.ex_rules_wf exh3_wf) as HA.
+  cbv zeta in HA. rewrite exs3_run in HA.
+  destruct (HA (rm_of exs3) (hd_of exs3) (sg_of exs3) l3 false (ramrep_of _) Hh Hl Hwk Hs Hw) as (hd' & sg' & E & Hh' & _).
   exists hd', sg'. split; [|exact Hh'].
   assert (Er : report_of (snd (fst (add_page_int l3 false exs3))) (snd (add_page_int l3 false exs3)) =
                mk_rp [(5, [pa_w; pa_w_s; pa_www_w; pa_www_w_s])] 1) by (vm_compute; reflexivity).
   rewrite <- Er. exact E.
 Qed.
 
+(* ---- add_pages on the state with the anchored rule: its history has no reopen, so every flagged anchor is known in RAM
+   (GenTraphPReach.run_anchors_known) and the theorem for add_pages applies with no extra hypothesis: two webentities
+   (5 by the anchored rule, 6 by the default rule), three pages ---- *)
+Lemma exh3_no_reopen : Forall not_reopen exh3.
+Proof. repeat constructor. Qed.
+
+Example ex_anchors_known : anchors_known exs3.
+Proof.
+  rewrite <- exs3_run. apply run_anchors_known; [exact PropsEx.ex_rules_wf|exact exh3_wf|].
+  apply no_reopen_resupply. exact exh3_no_reopen.
+Qed.
+
+Example ex_pages_anchored :
+  run_pages exs3 [l3; l1; l3; l2] false =
+    Some (mk_rp [(5, [pa_w; pa_w_s; pa_www_w; pa_www_w_s]); (6, [org_z; org_z_s; org_z ++ www; org_z_s ++ www])] 3, true, 6, 6) /\
+  snd (add_pages [l3; l1; l3; l2] false exs3) =
+    Report 3 [(5, [pa_w; pa_w_s; pa_www_w; pa_www_w_s]); (6, [org_z; org_z_s; org_z ++ www; org_z_s ++ www])].
+Proof. vm_compute. split; reflexivity. Qed.
+
+Example ex_theorem_applies_pages :
+  exists hd' sg', py_traph_add_pages (rm_of exs3) (hd_of exs3) (sg_of exs3) [l3; l1; l3; l2] false =
+    Some (hd', sg', mk_rp [(5, [pa_w; pa_w_s; pa_www_w; pa_www_w_s]); (6, [org_z; org_z_s; org_z ++ www; org_z_s ++ www])] 3) /\
+    hrep (fst (add_pages [l3; l1; l3; l2] false exs3)) hd' sg'.
+Proof.
+  assert (Hh : hrep exs3 (hd_of exs3) (sg_of exs3)) by (apply hrep_of; vm_compute; reflexivity).
+  assert (Hl : Forall wf_lru [l3; l1; l3; l2]) by (repeat constructor; PropsEx.wf_lru_tac).
+  assert (Hs : nb (fst (add_pages [l3; l1; l3; l2] false exs3)) * 128 < 2 ^ 64) by (vm_compute; reflexivity).
+  assert (Hw : lastwe exs3 + N.of_nat (length [l3; l1; l3; l2]) < 2 ^ 32) by (vm_compute; reflexivity).
+  pose proof (py_traph_add_pages_reach Domain [] exh3 PropsEx.ex_rules_wf exh3_wf
+                (no_reopen_resupply _ _ exh3_no_reopen)) as HA.
+  cbv zeta in HA. rewrite exs3_run in HA.
+  destruct (HA (rm_of exs3) (hd_of exs3) (sg_of exs3) [l3; l1; l3; l2] false (ramrep_of _) Hh Hl Hs Hw)
+    as (n & c & Er & hd' & sg' & E & Hh' & _).
+  exists hd', sg'. split; [|exact Hh'].
+  assert (Er2 : snd (add_pages [l3; l1; l3; l2] false exs3) =
+                Report 3 [(5, [pa_w; pa_w_s; pa_www_w; pa_www_w_s]); (6, [org_z; org_z_s; org_z ++ www; org_z_s ++ www])])
+    by (vm_compute; reflexivity).
+  rewrite Er2 in Er. injection Er as <- <-. exact E.
+Qed.
+
 (* ---- the condition cannot be dropped: after a reopen that does not re-supply the rule, the flag is still in the file, the RAM
    table is empty: the source raises KeyError on `self.webentity_creation_rules[rule_prefix]`, the model skips the anchor ---- *)
 Definition exh4 : list op := exh3 ++ [OReopen Domain []].
 Definition exs4 : traph := run Domain [] exh4.
+Lemma exs4_run : run Domain [] exh4 = exs4.
+Proof. unfold exs4. reflexivity. Qed.
 
 Lemma exh4_wf : Forall wf_op exh4.
 Proof. apply Forall_app. split; [exact exh3_wf|]. repeat constructor. Qed.
@@ -167,13 +222,16 @@ Theorem requested_statement_without_anchor_condition_is_false :
      exists hd' sg', py_traph_add_page rm hd sg lru cr = Some (hd', sg', report_of (snd (fst r)) (snd r)) /\
        hrep s' hd' sg' /\ ramrep s' rm).
 Proof.
-  intro H.
-  destruct (H Domain [] exh4 PropsEx.ex_rules_wf exh4_wf (rm_of exs4) (hd_of exs4) (sg_of exs4) l3 false (ramrep_of _)
-              (hrep_of exs4 ltac:(vm_compute; reflexivity)) ltac:(PropsEx.wf_lru_tac)
-              ltac:(vm_compute; reflexivity) ltac:(vm_compute; reflexivity)) as (hd' & sg' & E & _).
+  intro H. specialize (H Domain [] exh4 PropsEx.ex_rules_wf exh4_wf). cbv zeta in H. rewrite exs4_run in H.
+  assert (Hh : hrep exs4 (hd_of exs4) (sg_of exs4)) by (apply hrep_of; vm_compute; reflexivity).
+  assert (Hl : wf_lru l3) by PropsEx.wf_lru_tac.
+  assert (Hs : nb (fst (fst (add_page_int l3 false exs4))) * 128 < 2 ^ 64) by (vm_compute; reflexivity).
+  assert (Hw : lastwe exs4 + 1 < 2 ^ 32) by (vm_compute; reflexivity).
+  destruct (H (rm_of exs4) (hd_of exs4) (sg_of exs4) l3 false (ramrep_of _) Hh Hl Hs Hw) as (hd' & sg' & E & _).
   destruct ex_reopen_without_rules as [En _]. rewrite En in E. discriminate E.
 Qed.
 
 Print Assumptions ex_theorem_applies_default.
 Print Assumptions ex_theorem_applies_anchored.
+Print Assumptions ex_theorem_applies_pages.
 Print Assumptions requested_statement_without_anchor_condition_is_false.
